@@ -77,6 +77,8 @@ structure RawR (ι : Type) where
 instance {ι : Type} [Stream ι] : Stream (RawR ι) where
   seek r
     | .start n =>
+      -- `offset_pos.checked_add(pos)` (raw.rs, repair D28): a position that does not fit a u64 is refused
+      if U64 ≤ r.off + n then .error .io else
       match Stream.seek r.inner (.start (r.off + n)) with
       | .error e => .error e
       | .ok (i, _) => .ok ({ r with inner := i }, n)
